@@ -197,6 +197,9 @@ func toRegLan(re *syntax.Regexp) (string, error) {
 // evalUF gives the concrete interpretation of the engine's uninterpreted symbols.
 func (e *Engine) evalUF(name string, args []any) (any, bool) {
 	base := ufBase(name)
+	if strings.HasPrefix(name, "pure:") {
+		return evalPureUF(name, args)
+	}
 	switch {
 	case base == "re":
 		var id int
